@@ -138,7 +138,8 @@ def main():
         "not_applicable": [],
         "notes": ("All checks: ./check <id> --tier quick|thorough. Exit 0 held / 1 VIOLATION / 2 machinery failure. known_findings.json lists genuine "
                   "defects (fixed or recorded). Beyond the listed properties the specification has grown by ./check X01 (RSNorm / RunningMeanStd "
-                  "state machine, specs/RSNorm*.tla) and ./check X02 (mutation-method registry and MutationContext, specs/MutReg*.tla); their "
+                  "state machine, specs/RSNorm*.tla), ./check X02 (mutation-method registry and MutationContext, specs/MutReg*.tla) and ./check X03 "
+                  "(BanditEnv dataset environment and Skill wrapper, specs/BanditEnv*.tla); their "
                   "evidence is written to evidence/extras/ and they are described in DESIGN.md section 15. seeded/ holds the independently seeded "
                   "changes used to validate the checks (DESIGN.md section 14)."),
     }
